@@ -59,7 +59,7 @@ C12_RULE = ("two harnesses. MTCP: one evaluation = a seeded sequence of 1..20 se
 
 LOCAL_RULE = ("one evaluation = one seeded history over {register/unregister a mock agent (1..2 endpoints out of 3, overlapping), REST client register/unregister/fetch through the agent's router, "
               "deliver a bundle from a peer or submit it locally for one of the endpoints or for an endpoint nobody listens on, ping, a delivery running concurrently with a fetch of one mailbox "
-              "(interleaved at the REST mailbox hooks in a seeded order), advance}; 0..4 mock agents, 0..4 REST clients, 0..2 connected peers. Non-trivial = at least one delivery; distinct = distinct canonical log.")
+              "(interleaved at the REST mailbox hooks in a seeded order), WebSocket client connect+register / disconnect, advance}; 0..4 mock agents, 0..4 REST clients, 0..3 WebSocket clients, 0..2 connected peers. Non-trivial = at least one delivery; distinct = distinct canonical log.")
 
 C03_RULE = ("one evaluation = one seeded fully CRC-protected bundle (CRC-16/32 chosen per block incl. the primary block, dtn/ipn endpoints, optional hop-count / age / previous-node / unknown blocks, "
             "fragment or not, payload 0..300 bytes, up to 2 KiB in the thorough tier) sent by the real serialiser over a simulated MTCP stream into the real server connection handler; EVERY single bit "
@@ -106,8 +106,8 @@ PROPS = {
             "required_probes": ["stream_cut", "stream_stall", "field_corrupt", "hostile_segment_mru", "datagram_cut", "kind_eid", "kind_admin", "kind_block", "kind_bundle", "family_frag", "family_cbor", "family_xz", "rest/build", "wam_type_2"]},
     "C07": {"pkg": "pkg/routing", "binary": "routing.test", "harness": "local", "focus": "C07", "variants": [""],
             "budget": {"quick": 60, "thorough": 1200}, "level": "exploration", "rule": LOCAL_RULE,
-            "real": ["routing.Core local delivery path, AgentManager", "agent.MuxAgent", "agent.RestAgent behind its gorilla/mux router (recorder requests)", "agent.PingAgent", "storage.Store"],
-            "stub": ["application agents other than REST/ping: recording mock agents", "HTTP transport: httptest recorder, no sockets", "agent.WebSocketAgent: NOT driven by this harness", "convergence layers: scripted peers"],
+            "real": ["routing.Core local delivery path, AgentManager", "agent.MuxAgent", "agent.RestAgent behind its gorilla/mux router (recorder requests)", "agent.WebSocketAgent (upgrade handler, per-client goroutines, inner MuxAgent) and agent.WebSocketAgentConnector as its client", "agent.PingAgent", "storage.Store"],
+            "stub": ["application agents other than REST/ping: recording mock agents", "HTTP transport: httptest recorder, no sockets", "WebSocket transport: net.Pipe between the real WebSocketAgentConnector and the real WebSocketAgent.ServeHTTP (minimal hijackable ResponseWriter), no sockets, no http.Server", "convergence layers: scripted peers"],
             "assumptions": COMMON_ASSUME + ["sync.Map order inside RestAgent is not owned; the oracle demands delivery to all registered clients, which does not depend on it", "REST client uuids (crypto/rand) are canonicalised to client indices before they reach the scheduler or the log"],
             "required_probes": ["rmw_interleave", "local_bundle_without_recipient", "delivered_report_seen"]},
     "C12": {"parts": [
@@ -169,8 +169,8 @@ MANIFEST_TEXT = {
             "design_ref": "DESIGN.md §4 C04, §8.3", "note": "trusted: synctest quiescence as the 'blocked on the stream' observation, MemStats as allocation measure; messages are sampled, faults per message are enumerated; no coverage-guided mutation (outside this technique)", "technique": DST + " (fault enumeration per run)"},
     "C07": {"text": "Seeded register/unregister/deliver/fetch histories on the real Core + AgentManager + MuxAgent + RestAgent + PingAgent with mock agents and scripted peers; oracle from the registration set at each "
                     "delivery: every registered recipient of exactly that endpoint gets the bundle once (mock agents: hand-over count; REST clients: all fetches together return it exactly once), nobody else, "
-                    "never a peer, one pong per ping, a 'delivered' report and release from the store only after a hand-over; the deliver-during-fetch interleaving is forced at hooks. WebSocket clients are not covered.",
-            "design_ref": "DESIGN.md §4 C07", "note": NODE_NOTE + "; WebSocket agent not exercised; exactly-once accounting on unique payloads instead of a linearizability checker", "technique": DST},
+                    "never a peer, one pong per ping, a 'delivered' report and release from the store only after a hand-over; the deliver-during-fetch interleaving is forced at hooks. WebSocket clients (real agent + real connector over net.Pipe) connect, disconnect and receive between deliveries, not concurrently with them; such overlaps are not covered.",
+            "design_ref": "DESIGN.md §4 C07", "note": NODE_NOTE + "; WebSocket clients only sequentially (no overlap of connect/disconnect with a delivery); exactly-once accounting on unique payloads instead of a linearizability checker", "technique": DST},
     "C12": {"text": "MTCP: real client and server handler on a simulated stream: the server's channel carries exactly a prefix of the sent bundles, in order and identical, keep-alives invisible, every send invoked "
                     "after the cut fails and the peer is reported gone. BBC: real connectors on a simulated broadcast medium: the clean train (fragment size <= MTU, consecutive sequence numbers, start/end marks, "
                     "reassembly) and, enumerated per train, every single drop/duplication/adjacent swap: never a different bundle, and failure signalled whenever the bundle was not obtained.",
